@@ -21,6 +21,18 @@ type Case struct {
 	Shape []int   `json:"shape"` // statements per file
 	Runs  []Fault `json:"runs"`  // faulty runs, followed by clean runs until ErrNoPendingFiles
 	N     int     `json:"n"`     // ExecuteN argument (0 = all pending)
+	Ckpt  []int   `json:"ckpt,omitempty"` // 0-based indexes of the files that are checkpoints: a fresh history starts at the last one, nothing before it ever runs
+}
+
+// first is the index of the first file that takes part in the execution.
+func (c Case) first() int {
+	l := 0
+	for _, k := range c.Ckpt {
+		if k > l {
+			l = k
+		}
+	}
+	return l
 }
 
 type sid struct{ f, i int }
@@ -49,12 +61,22 @@ func checkCase(c Case) (Outcome, error) {
 	dir := &migrate.MemDir{}
 	byText := map[string]sid{}
 	var order []sid
+	first := c.first()
+	isCk := map[int]bool{}
+	for _, k := range c.Ckpt {
+		isCk[k] = true
+	}
 	for f, n := range c.Shape {
 		body := ""
+		if isCk[f] {
+			body = "-- atlas:checkpoint\n\n"
+		}
 		for i := 0; i < n; i++ {
 			s := sid{f, i}
 			byText[text(s)] = s
-			order = append(order, s)
+			if f >= first {
+				order = append(order, s)
+			}
 			body += text(s) + "\n"
 		}
 		if err := dir.WriteFile(fmt.Sprintf("%d_f.sql", f+1), []byte(body)); err != nil {
@@ -91,6 +113,9 @@ func checkCase(c Case) (Outcome, error) {
 	// nextUnrecorded computes, from the stored revisions only, the first statement not recorded.
 	nextUnrecorded := func() (sid, bool) {
 		for f, n := range c.Shape {
+			if f < first {
+				continue
+			}
 			r, ok := revs.M[version(f)]
 			switch {
 			case !ok:
@@ -107,6 +132,9 @@ func checkCase(c Case) (Outcome, error) {
 	filesLeft := func() int {
 		k := 0
 		for f, n := range c.Shape {
+			if f < first {
+				continue
+			}
 			if r, ok := revs.M[version(f)]; !ok || r.Applied != r.Total || r.Total != n {
 				k++
 			}
@@ -137,6 +165,9 @@ func checkCase(c Case) (Outcome, error) {
 		var execs []sid
 		for i, e := range trace {
 			if e.exec {
+				if e.s.f >= 0 && e.s.f < first {
+					return out, fmt.Errorf("run %d: statement %v of a file that precedes the last checkpoint was executed", run, e.s)
+				}
 				if stopped {
 					return out, fmt.Errorf("run %d: statement %v executed after the run's first fault", run, e.s)
 				}
@@ -236,6 +267,12 @@ done:
 	}
 	for f, n := range c.Shape {
 		r, ok := revs.M[version(f)]
+		if f < first {
+			if ok {
+				return out, fmt.Errorf("file %d precedes the last checkpoint but has a revision %+v", f+1, r)
+			}
+			continue
+		}
 		if !ok || r.Applied != n || r.Total != n || r.Error != "" {
 			return out, fmt.Errorf("final revision of file %d: %+v (want complete %d/%d, no error)", f+1, r, n, n)
 		}
